@@ -144,6 +144,10 @@ type Run struct {
 	NegFailing []string
 	NegTotal   int
 	NegRan     bool
+	// C06 bounded waiting stand-in
+	WFailing []string
+	WTotal   int
+	WRan     bool
 	// C08 bounded fault-injection stand-in
 	FFailing []string
 	FTotal   int
@@ -286,6 +290,14 @@ func verifyRun(opts *RunOpts) (*Run, error) {
 			run.ExtraNotes = append(run.ExtraNotes, "bounded negotiation stand-in did not run: "+err.Error())
 		} else {
 			run.NegFailing, run.NegTotal, run.NegRan = f, total, true
+		}
+	}
+	if opts.Prop == "C06" {
+		f, total, err := runBoundedWaiting(opts)
+		if err != nil {
+			run.ExtraNotes = append(run.ExtraNotes, "bounded waiting stand-in did not run: "+err.Error())
+		} else {
+			run.WFailing, run.WTotal, run.WRan = f, total, true
 		}
 	}
 	if opts.Prop == "C08" {
